@@ -10,7 +10,7 @@ import re
 
 os.environ['TZ'] = 'UTC'   # date-times without zone use the machine's zone: pin it
 
-HEADER = ('From Coq Require Import ZArith List Bool.\nFrom DV Require Import Base.Calendar C15.Model.\n'
+HEADER = ('From Coq Require Import ZArith List Bool.\nFrom DV Require Import Base.Calendar C15.Model C15.Chrono.\n'
           'Import ListNotations.\nOpen Scope Z_scope.\n')
 
 NS = 10 ** 9
@@ -464,7 +464,19 @@ def group_datetime(ctx, stats):
     pairs = [(((2400, 1, 1), 0, 0, 0, 0, 'Z'), ((2000, 1, 1), 0, 0, 0, 0, 'Z')),
              (((2021, 3, 4), 10, 0, 0, 0, 7200), ((2021, 3, 4), 10, 0, 0, 0, 'Z')),
              (((2021, 1, 1), 0, 30, 0, 0, 3600), ((2020, 12, 31), 23, 30, 0, 0, 'Z')),
-             (((300000, 1, 1), 0, 0, 0, 0, 'Z'), ((300000, 1, 1), 0, 0, 0, 0, 'Z'))]
+             (((300000, 1, 1), 0, 0, 0, 0, 'Z'), ((300000, 1, 1), 0, 0, 0, 0, 'Z')),
+             # the edges of the set on which the code answers (C15_dt_subtract_defined_iff, C15_dt_compare_defined_iff):
+             # a difference of exactly 2^63 - 1 ns, of 2^63 ns (a - b null, b - a = -2^63 ns defined), one more
+             (((2262, 4, 11), 23, 47, 16, 854775807, 'Z'), ((1970, 1, 1), 0, 0, 0, 0, 'Z')),
+             (((2262, 4, 11), 23, 47, 16, 854775808, 'Z'), ((1970, 1, 1), 0, 0, 0, 0, 'Z')),
+             (((2262, 4, 11), 23, 47, 16, 854775809, 'Z'), ((1970, 1, 1), 0, 0, 0, 0, 'Z')),
+             (((1970, 1, 1), 0, 0, 0, 0, 'Z'), ((2262, 4, 11), 23, 47, 16, 854775808, 'Z')),
+             (((2262, 4, 12), 0, 47, 16, 854775807, 3600), ((1969, 12, 31), 23, 0, 0, 0, -3600)),
+             # the first and the last second of chrono's range, moved out of it by one second of offset
+             (((-262143, 1, 1), 0, 0, 0, 0, 'Z'), ((-262143, 1, 1), 0, 0, 1, 0, 1)),
+             (((-262143, 1, 1), 0, 0, 0, 0, 1), ((-262143, 1, 1), 0, 0, 0, 0, 'Z')),
+             (((262142, 12, 31), 23, 59, 59, 999999999, 'Z'), ((262142, 12, 31), 23, 59, 58, 999999999, -1)),
+             (((262142, 12, 31), 23, 59, 59, 0, -1), ((262142, 12, 31), 23, 59, 59, 0, 'Z'))]
     for _ in range(ctx.pick(2500, 40000)):
         a = rand_dt(rng)
         b = rand_dt(rng, near=a)
@@ -496,7 +508,9 @@ def group_datetime(ctx, stats):
     terms = []
     for k in range(0, len(idx), B):
         items = ['(%s, %s)' % (coq_dt(pairs[i][0], resolved[i][0]), coq_dt(pairs[i][1], resolved[i][1])) for i in idx[k:k + B]]
-        terms.append('map (fun p => let a := fst p in let b := snd p in (dt_compare_impl a b, dt_subtract_impl a b, dt_subtract_spec a b, weekday_impl (dt_date a), chrono_dt a && chrono_dt b)) [%s]' % '; '.join(items))
+        # dt_compare_code / dt_subtract_code: the chrono path transliterated (coq/C15/Chrono.v); dt_*_impl: its closed form (proved equal: C15_chrono_path_is_model)
+        terms.append('map (fun p => let a := fst p in let b := snd p in (dt_compare_code a b, dt_subtract_code a b, dt_subtract_spec a b, weekday_impl (dt_date a), chrono_dt a && chrono_dt b, '
+                     '(dt_subtract_code b a, (dt_compare_impl a b, dt_subtract_impl a b)))) [%s]' % '; '.join(items))
     model = dict(zip(idx, [x for part in ctx.run_model(HEADER, terms, shard_size=2, tag='E') for x in part]))
     for i, ((a, b), rq, r) in enumerate(zip(pairs, reqs, impl)):
         ctx.evaluations += 1
@@ -531,8 +545,10 @@ def group_datetime(ctx, stats):
         if v[19] != {'d': '%s%04d-%02d-%02d' % ('-' if y < 0 else '', abs(y), m, d)} and parse_date_text((v[19] or {}).get('d', '') if isinstance(v[19], dict) else '') != (y, m, d):
             ctx.violation('date(%s) is %s' % (dt_lit(a), v[19]), case, impl=v[19])
             continue
-        mc, ms, spec, mw, in_chrono = model[i]
-        mc, ms, mw = opt(mc), opt(ms), opt(mw)
+        mc, ms, spec, mw, in_chrono, (ms_rev, (mc_closed, ms_closed)) = model[i]
+        if (mc, ms) != (mc_closed, ms_closed):
+            raise RuntimeError('C15: the chrono-path model and its closed form disagree at %s (theorem C15_chrono_path_is_model)' % rq['e'])
+        mc, ms, mw, ms_rev = opt(mc), opt(ms), opt(mw), opt(ms_rev)
         far = not in_chrono      # a year outside chrono's range, or the boundary year with an offset that moves the UTC date-time outside it
         if far and all(CHRONO_MIN < x[0][0] < CHRONO_MAX for x in (a, b)):
             raise RuntimeError('C15 model calls %s far although both years are inside chrono\'s range' % rq['e'])
@@ -567,7 +583,10 @@ def group_datetime(ctx, stats):
         got_sub = [parse_dtd_text(x['dtd']) if isinstance(x, dict) and 'dtd' in x else None for x in v[10:12]]
         want_sub = [spec, -spec]
         if got_sub != want_sub:
-            if got_sub == [None, None] and ms is None:
+            # each direction by itself: null exactly where the model of the chrono path is undefined (at a difference of 2^63 ns
+            # a - b is null and b - a = -2^63 ns is not), the exact difference everywhere else
+            null_as_modelled = all((g is None and m is None) or (g is not None and g == w) for g, m, w in zip(got_sub, [ms, ms_rev], want_sub))
+            if null_as_modelled and (ms is None or ms_rev is None):
                 key = 'far-datetime' if far else 'dt-sub-range'
                 if not ctx.known(key, case):
                     ctx.violation('a - b is null although both are valid date-times (%s)' % key, case, impl=v[10:12], model=want_sub)
@@ -879,11 +898,7 @@ def replay(ctx, path):
 
 
 MANIFEST = dict(
-    technique='Coq proof (proleptic Gregorian calendar on Z for every year: day-number bijection, order, weekday; date-from-numbers, whole-month difference, instants, duration components) with model/code correspondence',
-    text='Theorems (coq/Props/C15.v, closed under the global context): civil date <-> day number round trip in both directions and order isomorphism for every year (era shift proved algebraically, one 400-year era swept by vm_compute), '
-         'validity = month lengths + leap rule, weekday recurrence anchored at 1970-01-01, is_valid_date / date(y,m,d) with explicit 8-bit narrowing / FeelDate::ym_duration transliterated and proved equal to their specifications '
-         '(whole months characterised uniquely, sign-symmetric), date-time comparison and subtraction = instants with offsets, duration components recombine. Tied to feel/src/temporal/*.rs and the evaluator through FEEL expressions on '
-         'every day of the sampled years, boundary grids and pairs; original defective variants kept as _orig with _refuted theorems. Zone rules stay outside the Coq model: the zone database the code links (chrono-tz) is cross-checked '
-         'against an independent copy (Python zoneinfo / system tzdata) on and around the transition days of 17 zones, 1990-2021, instead of being taken from the implementation.',
-    note='Trusted: Coq kernel + vm_compute, hand-written model (correspondence-checked, not verified), chrono/chrono-tz modelled by the calendar (zone offsets read from the implementation), harness, Python driver. '
+    technique='Coq proof (proleptic Gregorian calendar on Z for every year: day-number bijection pinned by the successor of a date, order, weekday; validity against a relational calendar; the chrono path of date-time comparison / subtraction transliterated and proved equal to instants on the UTC time line exactly where it is defined; date-from-numbers, whole-month difference, duration components) with model/code correspondence',
+    text='Theorems (coq/Props/C15.v, 49, closed under the global context). Calendar: civil date <-> day number inverse on ALL valid dates and ALL day numbers, strictly monotone, successor-preserving (C15_civil_bijection; era shift algebraic, one 400-year era swept by vm_compute); the day number and the weekday are PINNED independently of the closed formulas: any function that is 0 on 1970-01-01 and grows by one from each date to the next (next day of the month / first of next month / 1 January) is days_from_civil, any function that is Thursday there and advances Monday..Sunday is the weekday (C15_day_number_unique, C15_weekday_unique), and the code\'s own March-based era arithmetic is that weekday for every year (C15_weekday_code). Validity: the Spec as a relation (table of month lengths + leap rule y mod 4 = 0 /\\ (y mod 100 <> 0 \\/ y mod 400 = 0)) and the code\'s formulation (is_leap_year with Rust\'s truncating %, last_day_of_month as a match, chrono conversion first then fallback) proved equivalent (C15_valid_date_spec). Date-times: Spec = comparison / difference of utc_ns (days * 86400e9 + local time of day - offset), NO guard; ImplModel = the chrono 0.4.45 path transliterated (NaiveDate as year + ordinal, from_ymd_opt, overflowing_sub_offset, pred_opt / succ_opt with the range ends, lexicographic Ord, signed_duration_since through 400-year cycles with the crate\'s YEAR_DELTAS table, TimeDelta::num_nanoseconds with checked i64 arithmetic). C15_dt_compare_defined_iff / C15_dt_subtract_defined_iff CHARACTERISE where the code answers (both values representable by chrono locally and in UTC; for subtraction also -2^63 <= difference <= 2^63 - 1 ns: the known findings far-datetime and dt-sub-range as definedness conditions), C15_dt_compare_exact / C15_dt_subtract_exact: whenever it answers, with the order / exact difference of the instants (no hypothesis); C15_chrono_utc_spec, C15_chrono_path_is_model. Named zones: for EVERY zone-rule function the same (C15_zoned_compare_exact, C15_zoned_subtract_exact, C15_zoned_compare_defined_iff); the rules themselves are not in Coq. Also: is_valid_date / date(y,m,d) with explicit 8-bit narrowing / FeelDate::ym_duration transliterated and proved equal to their specifications (whole months characterised uniquely, sign-symmetric), duration components recombine; original defective variants kept as _orig with _refuted theorems. Tied to feel/src/temporal/*.rs and the evaluator through FEEL expressions on every day of the sampled years, boundary grids and pairs, including the exact edges of the definedness set (differences of 2^63 - 1, 2^63, 2^63 + 1 ns; the first / last second of chrono\'s range moved out by one second of offset). The zone database the code links (chrono-tz) is cross-checked against an independent copy (Python zoneinfo / system tzdata) on and around the transition days of 17 zones, 1990-2021.',
+    note='Trusted: Coq kernel + vm_compute, hand-written model (correspondence-checked, not verified), chrono\'s from_ymd_opt modelled as calendar validity inside its year range (its month/day tables are not transliterated), chrono-tz zone rules abstract in Coq (offsets read from the implementation / cross-checked with zoneinfo), harness, Python driver. '
          'Known findings: date-time comparison/subtraction are null beyond chrono\'s years -262143..262142; a - b is null beyond ~292 years.')
